@@ -845,8 +845,9 @@ func runC11(c *Ctx) error {
 				y = strings.Replace(isoPlainConfigYAML(tree, scripts), "depends: [/bin/sh, libc, \"zlib (>= 1.2)\"]", "depends: [\"${OPTIONAL_DEPENDENCY}\", libc, \"zlib (>= 1.2)\", \"${ANOTHER_ONE}\"]", 1)
 			}
 			if slot == 5 {
-				y = isoPlainConfigYAML(tree, scripts) + fmt.Sprintf("  - src: %q\n    dst: /etc/globbed\n    type: config\n  - src: %q\n    dst: /etc/globbed/a.conf\n    packager: rpm\n",
-					filepath.Join(tree.Root, "etc/conf.d/*.conf"), filepath.Join(tree.Root, "etc/app.conf"))
+				// the entry addressed to rpm comes first, so that it is the glob entry that runs into it
+				y = isoPlainConfigYAML(tree, scripts) + fmt.Sprintf("  - src: %q\n    dst: /etc/globbed/a.conf\n    packager: rpm\n  - src: %q\n    dst: /etc/globbed\n    type: config\n  - src: %q\n    dst: /etc/globbed2/b.conf\n    packager: deb\n  - src: %q\n    dst: /etc/globbed2\n",
+					filepath.Join(tree.Root, "etc/app.conf"), filepath.Join(tree.Root, "etc/conf.d/*.conf"), filepath.Join(tree.Root, "etc/app.conf"), filepath.Join(tree.Root, "etc/conf.d/*.conf"))
 			}
 			if slot == 6 {
 				y = isoPlainConfigYAML(tree, scripts) + fmt.Sprintf("  - src: %q\n    dst: /usr/share/isoplain/capitals\n    packager: RPM\n  - src: %q\n    dst: /usr/share/isoplain/blanks\n    packager: \" deb \"\n",
